@@ -75,7 +75,8 @@ class NumpyShim:
     def float64(self, x):
         return x if isinstance(x, Sym) else _np.float64(x)
 
-    def linspace(self, a, b, n, endpoint=True, **kw):
+    def linspace(self, a, b, n=None, endpoint=True, num=None, **kw):
+        n = num if n is None else n
         if _has_sym([a, b]):
             self.used.add("linspace")
             n = int(n)
